@@ -173,6 +173,7 @@ Definition spec_case (c : case) : sres :=
           | Some (_, a) => if fits k (blen a) then SOk [sv k a] else SErr ECap
           | None => SFree end
   | 12 => match sval c 0 with Some (ka, a) => SOk [sv ka a] | None => SFree end
+  | 14 => match sval c 1 with Some (kb, b) => SOk [sv kb b] | None => SFree end
   | 13 => if fits k a1 then SOk [sv k (s_fill a1 a0)] else SPanic
   | _ =>
   match sval c 0 with
